@@ -282,8 +282,14 @@ class Config:
         if not self.accessible:
             return
         probe = self.flat("probe")
-        if any(K.write_all(self.sg, "probe", self.extra, None, True)):
-            raise core.Internal("probe values cannot be written")
+        refused = K.write_all(self.sg, "probe", self.extra, None, True)
+        if any(refused):
+            # values every format of the alphabet holds
+            self.bad("in-process: a value that fits the format of its "
+                     "variable can be written",
+                     dict(values=[repr(v) for v in probe]),
+                     dict(errors=[repr(e)[:80] for e in refused if e]))
+            return
         for n, (owner, name, fmt) in enumerate(self.vars):
             for badv in K.BAD[fmt]:
                 try:
